@@ -89,6 +89,11 @@ func routeObs1(n *node, h uint64) (verdict string, canon string) {
 	got := map[string]*pb.InterchainTxWrapper{}
 	var blkRef *pb.Block
 	defer func() {
+		// the real router indexes the block with what the meta says: a meta naming a position the block does not have makes
+		// it panic (in the node: the goroutine that feeds the piers)
+		if r := recover(); r != nil {
+			verdict = "bad:router-panicked:" + panicClass(fmt.Sprint(r))
+		}
 		if blkRef != nil {
 			canon = routeCanon(blkRef, got)
 		}
@@ -127,6 +132,9 @@ func routeObs0(n *node, h uint64, gotOut map[string]*pb.InterchainTxWrapper, blk
 		}
 		for i, vi := range want {
 			got := w.Transactions[i]
+			if int(vi.Index) >= len(blk.Transactions.Transactions) {
+				return fmt.Sprintf("bad:%s:%s:meta-names-position-%d-of-%d", path, pier, vi.Index, len(blk.Transactions.Transactions))
+			}
 			exp := blk.Transactions.Transactions[vi.Index]
 			if got == nil || got.Tx == nil || got.Tx.GetHash().String() != exp.GetHash().String() {
 				return fmt.Sprintf("bad:%s:%s:tx[%d]-is-not-block-tx-%d", path, pier, i, vi.Index)
